@@ -217,11 +217,28 @@ template <class R> static std::string run_ring(const std::string& op, const std:
     return "BAD-SRC";
 }
 
-int main() {
+// ------------------------------------------------------------------ per-case CPU-time watchdog, accurate crash attribution
+// Before each case ITIMER_PROF is armed with a CPU budget (argv[1] seconds, default 20; CPU time does not depend on machine load).
+// A call that does not return within it: everything answered so far is flushed, the line HANG is printed for the current case and the
+// process exits with status 75; checks/C04.py re-runs that one case alone with a larger budget before it reports "does not return".
+// A fatal signal (SIGSEGV, SIGFPE, ...) flushes the answers of the completed cases first, so that the crash is attributed to the right line.
+#include <signal.h>
+#include <sys/time.h>
+#include <unistd.h>
+static void on_prof(int) { std::cout.flush(); const char m[] = "HANG\n"; ssize_t w = write(1, m, sizeof m - 1); (void)w; _exit(75); }
+static void on_fatal(int sig) { std::cout.flush(); _exit(100 + sig); }
+static void arm(long sec) { struct itimerval t; t.it_interval.tv_sec = 0; t.it_interval.tv_usec = 0; t.it_value.tv_sec = sec; t.it_value.tv_usec = 0;
+    setitimer(ITIMER_PROF, &t, 0); }
+
+int main(int argc, char** argv) {
     std::ios::sync_with_stdio(false);
+    long budget = (argc > 1) ? atol(argv[1]) : 20; if (budget <= 0) budget = 20;
+    signal(SIGPROF, on_prof);
+    signal(SIGSEGV, on_fatal); signal(SIGFPE, on_fatal); signal(SIGBUS, on_fatal); signal(SIGILL, on_fatal); signal(SIGABRT, on_fatal);
     std::string line;
     mpz_t p, x; mpz_init(p); mpz_init(x); mpz_init(g_p2);
     while (std::getline(std::cin, line)) {
+        arm(budget);
         std::istringstream is(line);
         std::string op, ring, src, ps, xs; unsigned k = 1;
         if (!(is >> op >> ring >> src >> ps >> k >> xs)) { if (!line.empty()) std::cout << "BAD-LINE\n"; continue; }
@@ -265,6 +282,7 @@ int main() {
 #endif
         else out = "BAD-RING";
 #undef RING
+        arm(0);
         std::cout << out << "\n";
     }
     return 0;
